@@ -159,12 +159,16 @@ CHECKS = {
         'reorders operations (C12_scopePass_structure); every measurement key of the unrolled form is the written key prefixed by its scopes '
         '(C12_scopePass_mkeys); a condition binds to the measurement of the innermost enclosing scope in which the key has been recorded and '
         'otherwise stays external (C12_bind_innermost, C12_bind_external); zero repetitions unroll to nothing and |repetitions| copies '
-        'otherwise (C12_reps_zero, C12_reps_length); qubit maps compose. T2: generated nestings (depth 0..3) are built as real '
+        'otherwise (C12_reps_zero, C12_reps_length); qubit maps compose; which recorded measurements a condition may bind to (a measurement in an enclosing body or in '
+        'an earlier sibling sub-circuit that adds no scope is visible, a scoped sibling and the other iterations of a loop are not: C12_enclosing_visible, '
+        'C12_unscoped_sibling_visible, C12_scoped_sibling_not_visible, C12_other_iteration_not_visible, C12_same_body_visible); the terminal-measurement queries on the flat '
+        'form (Model/C12Terminal) for a body repeated n >= 2 times answer as for two repetitions, and a body repeated zero times does not count '
+        '(C12_all_terminal_two_repetitions, C12_any_terminal_two_repetitions, C12_terminal_zero_repetitions). T2: generated nestings (depth 0..3) are built as real '
         'CircuitOperations; unroll_circuit_op(deep=True) must equal the specified flat list (ids, qubits, full keys, bound condition keys, '
         'inversion and order); key / qubit queries of the wrapped circuit equal those of the unrolled one; its unitary and its exact joint '
         'record distribution (all simulator branches enumerated) equal those of the specified unrolled circuit run by the Lean interpreter.',
         'Trusted: Lean kernel; harness + drivers; abstraction of operations to (id, qubits, key, KeyCondition list); parameter maps and '
-        'repeat_until loops are not in the model; KNOWN FINDING unroll:unitary-raises:zero-reps (see known_findings.json).',
+        'repeat_until loops are not in the model; KNOWN FINDING unroll:unroll_circuit_op_greedy_frontier:key-dependency (see known_findings.json).',
         'Lean 4 proof about the unrolling specification + differential correspondence (structure, unitary, exact distributions)',
         'DESIGN.md §3 C12',
     ),
